@@ -8,7 +8,11 @@ package main
 // ("done" = take the oldest record out of the writer's channel and acknowledge it). After EVERY op the
 // index (key:flag:refCnt), the number of pending records and the records really present in tmp.data
 // (real scanFile) are compared with LemoModel.Wal.qStep; "crash" compares what a restart would serve.
-// Direct oracle: a record whose Put/PutBatch returned must be recoverable at every instant.
+// "qrestart" (sampled) starts a detached queue WITH the real bitcask files and LevelDB position index on a copy of the
+// directory — the keys of the acknowledged records are indexed there — and compares the rebuilt pending index and the
+// records handed to the writer again, in order, with LemoModel.Wal.qRestart.
+// Direct oracle: a record whose Put/PutBatch returned must be recoverable at every instant, and every acknowledged
+// record the writer has not persisted must be among the records a restart hands to the writer.
 
 import (
 	"bytes"
@@ -123,20 +127,82 @@ func (x *c08Q) realRestart(base string) (lost []string, status string) {
 	if st != "ok" {
 		return nil, "reopen-panic"
 	}
-	if !c08QueueIdle(b.db.Queue, 10*time.Second) {
+	c08MarkFor("writer-drain", 20*time.Second)
+	idle := c08QueueIdle(b.db.Queue, 10*time.Second)
+	c08Unmark()
+	if !idle {
 		return nil, "recovery-hang"
 	}
 	prom := map[c08SK][]byte{}
 	c08Replay(prom, x.done)
 	c08Replay(prom, x.pend)
 	for k, pv := range prom {
-		got, err := b.db.Get(k.flg, []byte(k.key))
+		var got []byte
+		var err error
+		c08Do("beansdb-get", func() { got, err = b.db.Get(k.flg, []byte(k.key)) })
 		if err != nil || !bytes.Equal(got, pv) {
 			lost = append(lost, fmt.Sprintf("%d:%s", k.flg, hexOrDash([]byte(k.key))))
 		}
 	}
 	sort.Strings(lost)
 	return lost, "ok"
+}
+
+// restartOp: op `qrestart` — the queue's directory as it is NOW (tmp.data, the bitcask files and the LevelDB position
+// index the "writer" has filled: keys of acknowledged records ARE indexed) is copied and a detached queue is started on
+// the copy by the real start-up code (NewBitCask x 256, checkFile -> scanFile -> deliver). Answer: the pending index
+// and the records handed to the writer again, in order. Model: LemoModel.Wal.qRestart.
+func (x *c08Q) restartOp(base string) (line string, recs []c08Rec, status string) {
+	img := filepath.Join(base, "qrimg")
+	os.RemoveAll(img)
+	c08CopyDir(x.dir, img)
+	defer os.RemoveAll(img)
+	var ldb *leveldb.LevelDBDatabase
+	var q *store.FileQueue
+	var err error
+	st := ""
+	c08Do("queue-restart", func() {
+		st = Safe(func() string {
+			ldb = leveldb.NewLevelDBDatabase(filepath.Join(img, "index"), 16, 16)
+			q, err = store.VerifNewDetachedQueueDB(img, ldb)
+			if err != nil {
+				return c08ErrName(err)
+			}
+			return "ok"
+		})
+	})
+	defer func() {
+		if q != nil {
+			q.Close()
+		}
+		if ldb != nil {
+			c08Do("leveldb-close", func() { Safe(func() string { ldb.Close(); return "" }) })
+		}
+	}()
+	if st != "ok" {
+		return "fail:" + st, nil, "fail"
+	}
+	for op := c08Recv(q, 0); op != nil; op = c08Recv(q, 0) {
+		recs = append(recs, c08Rec{op.Flg, op.Key, op.Val})
+	}
+	var sb strings.Builder
+	fmt.Fprintf(&sb, "idx=[%s] redelivered=%d", strings.Join(q.VerifIndexDump(), ","), len(recs))
+	for _, r := range recs {
+		sb.WriteByte(' ')
+		sb.WriteString(c08RecStr(r.Flg, r.Key, r.Val))
+	}
+	return sb.String(), recs, "ok"
+}
+
+// c08Subseq: is `a` a subsequence of `b` (records compared completely)?
+func c08Subseq(a, b []c08Rec) bool {
+	j := 0
+	for i := range b {
+		if j < len(a) && c08SameRecs(a[j:j+1], b[i:i+1]) {
+			j++
+		}
+	}
+	return j == len(a)
 }
 
 func c08QueueTie(c *Ctx, base string) {
@@ -178,6 +244,8 @@ func c08QueueTie(c *Ctx, base string) {
 		}
 		x := &c08Q{q: q, ldb: ldb, dir: dir}
 		c.Op("qnew", "ok")
+		c08Case(fmt.Sprintf("queue-tie sequence %d", seq))
+		c08Note("qnew")
 		mixedFlags = false
 		nops := 8 + c.Rnd.Intn(30)
 		reported := false
@@ -198,9 +266,12 @@ func c08QueueTie(c *Ctx, base string) {
 					fk = 2
 				}
 				r := newRec(fk)
-				if err := q.Put(r.Flg, r.Key, r.Val); err != nil {
-					panic(err)
-				}
+				c08Note(fmt.Sprintf("qput %d:%s:%s", r.Flg, hexOrDash(r.Key), hexOrDash(r.Val)))
+				c08Do("queue-put", func() {
+					if err := q.Put(r.Flg, r.Key, r.Val); err != nil {
+						panic(err)
+					}
+				})
 				x.pend = append(x.pend, r)
 				c.Op(fmt.Sprintf("qput %d:%s:%s", r.Flg, hexOrDash(r.Key), hexOrDash(r.Val)), x.show())
 				c.Count("q:put")
@@ -215,9 +286,12 @@ func c08QueueTie(c *Ctx, base string) {
 					items = append(items, &store.BatchItem{Flg: r.Flg, Key: r.Key, Val: r.Val})
 					words = append(words, fmt.Sprintf("%d:%s:%s", r.Flg, hexOrDash(r.Key), hexOrDash(r.Val)))
 				}
-				if err := q.PutBatch(items); err != nil {
-					panic(err)
-				}
+				c08Note("qbatch " + strings.Join(words, " "))
+				c08Do("queue-putbatch", func() {
+					if err := q.PutBatch(items); err != nil {
+						panic(err)
+					}
+				})
 				x.pend = append(x.pend, rs...)
 				c.Op("qbatch "+strings.Join(words, " "), x.show())
 				c.Count("q:batch")
@@ -227,7 +301,8 @@ func c08QueueTie(c *Ctx, base string) {
 					c.Count("q:done-idle")
 					break
 				}
-				op := <-q.SyncFileDB.WriteChan
+				op := c08Recv(q, 0) // len(WriteChan) > 0 was checked above: never blocks
+				c08Note("qdone")
 				// the record the real queue hands to the writer must be the oldest acknowledged one (FIFO)
 				if op.Flg != x.pend[0].Flg || !bytes.Equal(op.Key, x.pend[0].Key) || !bytes.Equal(op.Val, x.pend[0].Val) {
 					c08Fail(c, "c08/queue-not-fifo", fmt.Sprintf("sequence %d op %d: the writer receives %s, the oldest acknowledged record is %s", seq, i, c08RecStr(op.Flg, op.Key, op.Val), c08RecStr(x.pend[0].Flg, x.pend[0].Key, x.pend[0].Val)), nil)
@@ -235,10 +310,13 @@ func c08QueueTie(c *Ctx, base string) {
 				x.done = append(x.done, x.pend[0])
 				x.pend = x.pend[1:]
 				// what the writer goroutine does: bitcask file + LevelDB position + cursor, then Done -> afterPut
-				if err := q.VerifWriterPut(op); err != nil {
-					panic("bitcask put: " + err.Error())
-				}
-				st := Safe(func() string { q.VerifAfterPut(op); return "ok" })
+				c08Do("writer-put", func() {
+					if err := q.VerifWriterPut(op); err != nil {
+						panic("bitcask put: " + err.Error())
+					}
+				})
+				st := ""
+				c08Do("queue-afterput", func() { st = Safe(func() string { q.VerifAfterPut(op); return "ok" }) })
 				if st == "panic" {
 					c.Op("qdone", "panic "+x.show())
 					c.Count("q:done-panic")
@@ -256,7 +334,43 @@ func c08QueueTie(c *Ctx, base string) {
 				c.Count("q:pending-not-in-wal")
 			}
 			// sampled: the same question answered by the real start-up code on a copy of the directory
-			if !mixedFlags && ((seq%4 == 0 && i == 3) || i == nops-1 || (c.Tier == "thorough" && c.Rnd.Intn(6) == 0)) {
+			sampled := (seq%4 == 0 && i == 3) || i == nops-1 || (c.Tier == "thorough" && c.Rnd.Intn(6) == 0)
+			// op `qrestart`: what the real start-up code hands to the writer again on a copy of the directory — the keys of
+			// the records acknowledged so far have a position in the LevelDB index (VerifWriterPut wrote it)
+			every := 10
+			if c.Tier == "thorough" {
+				every = 4
+			}
+			if !panicked && (sampled || c.Rnd.Intn(every) == 0) {
+				c08Note("qrestart")
+				rline, rrecs, rst := x.restartOp(base)
+				c.Op("qrestart", rline)
+				c.Count("q:restart:" + rst)
+				wal := x.walRecs()
+				indexed := 0
+				for _, r := range wal {
+					if v, _ := q.VerifPersisted(r.Flg, r.Key); v != nil {
+						indexed++
+					}
+				}
+				if indexed > 0 {
+					c.Count("q:restart:wal-record-of-indexed-key")
+				}
+				// direct oracle: every acknowledged record the writer has not persisted yet must be handed to it again,
+				// in order (whatever else the start-up code chooses to redeliver)
+				if rst == "ok" && !c08Subseq(x.pend, rrecs) {
+					c.Count("q:restart:pending-not-redelivered")
+					cause := "record-in-wal-not-redelivered"
+					if len(x.pend) > len(wal) || !c08SameRecs(wal[len(wal)-min(len(wal), len(x.pend)):], x.pend) {
+						cause = "wal-removed-with-record-pending"
+					} else if indexed > 0 {
+						cause = "overwritten-key-not-redelivered"
+					}
+					c08Fail(c, "c08/acked-record-not-redelivered/"+cause, fmt.Sprintf("FileQueue restart (sequence %d, after op %d): %d acknowledged record(s) are not yet persisted by the writer and all lie in tmp.data (%d records, %d of them for keys that already have a position in the index), but the start-up scan hands only %d record(s) to the writer — not all of the unpersisted ones: %s", seq, i, len(x.pend), len(wal), indexed, len(rrecs), rline[:min(len(rline), 300)]),
+						map[string]interface{}{"level": "FileQueue restart (detached queue, real bitcask files + LevelDB index)", "sequence": seq, "op": i, "ops": append([]string{}, c08Wd.notes...)})
+				}
+			}
+			if !mixedFlags && sampled {
 				rlost, rst := x.realRestart(base)
 				c.Count("q:real-restart:" + rst)
 				if rst != "ok" {
@@ -268,6 +382,10 @@ func c08QueueTie(c *Ctx, base string) {
 				if len(rlost) > 0 && !reported {
 					reported = true
 					rsig := "c08/acked-record-lost/wal-removed-with-record-pending"
+					if !pnw {
+						// every unpersisted record IS in tmp.data: the restart did not bring it back
+						rsig = "c08/acked-record-lost/record-in-wal-not-redelivered"
+					}
 					if x.staleTail {
 						rsig = "c08/stale-record-redelivered/stale-records-behind-rewound-offset"
 					}
@@ -287,7 +405,7 @@ func c08QueueTie(c *Ctx, base string) {
 			}
 		}
 		q.Close()
-		ldb.Close()
+		c08Do("leveldb-close", func() { ldb.Close() })
 		os.RemoveAll(dir)
 	}
 }
@@ -305,9 +423,24 @@ type c08W struct {
 	dir  string
 	q    *store.FileQueue
 	pend []*store.Inject // handed to the writer, not yet acknowledged
+	// withDB: the queue has the real bitcask files and the real LevelDB position index behind it and drain() persists
+	// the records the way the writer goroutine does (BitCask.Put) before it acknowledges them — so the keys written in
+	// earlier rounds HAVE a position in the index when the next restart scans tmp.data
+	withDB bool
+	ldb    *leveldb.LevelDBDatabase
 }
 
 func (w *c08W) path() string { return filepath.Join(w.dir, "tmp.data") }
+
+func (w *c08W) close() {
+	if w.q != nil {
+		w.q.Close()
+	}
+	if w.ldb != nil {
+		c08Do("leveldb-close", func() { Safe(func() string { w.ldb.Close(); return "" }) })
+		w.ldb = nil
+	}
+}
 
 // restart = a new detached queue on the directory (real checkFile -> scanFile)
 func (w *c08W) restart() (line string, recs []c08Rec) {
@@ -316,25 +449,30 @@ func (w *c08W) restart() (line string, recs []c08Rec) {
 	}
 	w.pend = nil
 	var err error
-	st := Safe(func() string {
-		w.q, err = store.VerifNewDetachedQueue(w.dir)
-		if err != nil {
-			return c08ErrName(err)
-		}
-		return "ok"
+	st := ""
+	c08Note("wrestart")
+	c08Do("queue-restart", func() {
+		st = Safe(func() string {
+			if w.withDB {
+				if w.ldb == nil {
+					w.ldb = leveldb.NewLevelDBDatabase(filepath.Join(w.dir, "index"), 16, 16)
+				}
+				w.q, err = store.VerifNewDetachedQueueDB(w.dir, w.ldb)
+			} else {
+				w.q, err = store.VerifNewDetachedQueue(w.dir)
+			}
+			if err != nil {
+				return c08ErrName(err)
+			}
+			return "ok"
+		})
 	})
 	if st != "ok" {
 		return "fail:" + st, nil
 	}
-	for {
-		select {
-		case op := <-w.q.SyncFileDB.WriteChan:
-			recs = append(recs, c08Rec{op.Flg, op.Key, op.Val})
-			w.pend = append(w.pend, op) // stays pending until drain()
-			continue
-		default:
-		}
-		break
+	for op := c08Recv(w.q, 0); op != nil; op = c08Recv(w.q, 0) {
+		recs = append(recs, c08Rec{op.Flg, op.Key, op.Val})
+		w.pend = append(w.pend, op) // stays pending until drain()
 	}
 	fi, _ := os.Stat(w.path())
 	var sb strings.Builder
@@ -347,18 +485,33 @@ func (w *c08W) restart() (line string, recs []c08Rec) {
 }
 
 func (w *c08W) put(r c08Rec) string {
-	if err := w.q.Put(r.Flg, r.Key, r.Val); err != nil {
+	var err error
+	c08Note(fmt.Sprintf("wput %d:%s:%d bytes", r.Flg, hexOrDash(r.Key), len(r.Val)))
+	c08Do("queue-put", func() { err = w.q.Put(r.Flg, r.Key, r.Val) })
+	if err != nil {
 		return "err " + err.Error()
 	}
-	w.pend = append(w.pend, <-w.q.SyncFileDB.WriteChan) // stays pending in the index until drain()
+	op := c08Recv(w.q, time.Second)
+	if op == nil {
+		return "ok not-handed-to-writer"
+	}
+	w.pend = append(w.pend, op) // stays pending in the index until drain()
 	fi, _ := os.Stat(w.path())
 	return fmt.Sprintf("ok off=%d size=%d", w.q.Offset, fi.Size())
 }
 
 // drain: the writer has persisted and acknowledged everything (real afterPut -> delIndex): the index is empty
 func (w *c08W) drain() string {
+	c08Note("wdrain")
 	for _, op := range w.pend {
-		w.q.VerifAfterPut(op)
+		if w.withDB {
+			c08Do("writer-put", func() {
+				if err := w.q.VerifWriterPut(op); err != nil {
+					panic("bitcask put: " + err.Error())
+				}
+			})
+		}
+		c08Do("queue-afterput", func() { w.q.VerifAfterPut(op) })
 	}
 	w.pend = nil
 	return fmt.Sprintf("ok idx=%d", len(w.q.VerifIndexDump()))
@@ -371,7 +524,8 @@ func c08RewindTie(c *Ctx, base string) {
 	for it := 0; it < nCases; it++ {
 		dir := filepath.Join(base, fmt.Sprintf("rw%d", it))
 		os.MkdirAll(dir, 0755)
-		w := &c08W{dir: dir}
+		w := &c08W{dir: dir, withDB: it%3 != 2}
+		c08Case(fmt.Sprintf("rewind-tie case %d (position index behind the queue: %v)", it, w.withDB))
 		os.WriteFile(w.path(), nil, 0644)
 		c.Op("wload -", "len 0")
 		line, _ := w.restart()
@@ -400,16 +554,37 @@ func c08RewindTie(c *Ctx, base string) {
 			c.Op("wdrain", w.drain())
 			since = append([]c08Rec{}, put(1, 20)) // a single short record after the last drain
 		}
+		// which of the records written since the queue was last idle are for keys that already have a position
+		indexedKeys := 0
+		if w.withDB {
+			for _, r := range since {
+				if v, _ := w.q.VerifPersisted(r.Flg, r.Key); v != nil {
+					indexedKeys++
+				}
+			}
+			if indexedKeys > 0 {
+				c.Count("rewind-tie:restart-with-indexed-keys")
+			}
+		}
 		line, recs := w.restart()
 		c.Op("wrestart", line)
 		if c08SameRecs(recs, since) {
 			c.Count("rewind-tie:intact")
+		} else if len(recs) < len(since) && c08Subseq(recs, since) {
+			// fewer records than written: the unpersisted records are in tmp.data but the scan does not hand all of them over
+			c.Count("rewind-tie:not-redelivered")
+			cause := "record-in-wal-not-redelivered"
+			if indexedKeys > 0 {
+				cause = "overwritten-key-not-redelivered"
+			}
+			c08Fail(c, "c08/acked-record-not-redelivered/"+cause, fmt.Sprintf("FileQueue: %d rounds of writes with the queue drained (records persisted, keys indexed) in between; %d record(s) were written since the queue was last idle (%d of them overwrite keys that already have a position in the index), none of them persisted yet — a restart hands only %d of them to the writer (%s): the last acknowledged values of the others are lost", rounds, len(since), indexedKeys, len(recs), line[:min(len(line), 160)]),
+				map[string]interface{}{"level": "FileQueue", "rounds": rounds, "written_since_idle": len(since), "of_indexed_keys": indexedKeys, "delivered": len(recs), "ops": append([]string{}, c08Wd.notes...)})
 		} else {
 			c.Count("rewind-tie:stale-redelivered")
 			c08Fail(c, "c08/stale-record-redelivered/stale-records-behind-rewound-offset", fmt.Sprintf("FileQueue: %d rounds of writes with the queue drained in between; %d record(s) were written since the queue was last idle, a restart delivers %d: records of earlier rounds lie behind the rewound write position and are redelivered AFTER the newer versions of their keys (%s)", rounds, len(since), len(recs), line[:min(len(line), 160)]),
 				map[string]interface{}{"level": "FileQueue", "rounds": rounds, "written_since_idle": len(since), "delivered": len(recs)})
 		}
-		w.q.Close()
+		w.close()
 		os.RemoveAll(dir)
 	}
 }
@@ -420,6 +595,7 @@ func c08RemnantFamily(c *Ctx, base string) {
 		dir := filepath.Join(base, fmt.Sprintf("w%d", it))
 		os.MkdirAll(dir, 0755)
 		w := &c08W{dir: dir}
+		c08Case(fmt.Sprintf("remnant case %d", it))
 		// what has been written and acknowledged
 		nGood := 1 + c.Rnd.Intn(2)
 		var file []byte
@@ -484,7 +660,7 @@ func c08RemnantFamily(c *Ctx, base string) {
 		if !c08SameRecs(recs3, recs) {
 			c08Fail(c, "c08/restart-not-idempotent", "two restarts in a row deliver different records", nil)
 		}
-		w.q.Close()
+		w.close()
 		os.RemoveAll(dir)
 	}
 }
